@@ -742,5 +742,44 @@ theorem addSymbol_step {t : SymTab} {recs : List Spec.SymRec} (hg : Grown t.sym 
       rw [this]; exact g2
 
 
+/-! ### string-table facts needed for names -/
+
+theorem takeWhile_nul (n rest : Bytes) (hn : (0 : UInt8) ∉ n) :
+    (n ++ 0 :: rest).takeWhile (· ≠ 0) = n := by
+  induction n with
+  | nil => simp
+  | cons x xs ih =>
+    have hx : x ≠ 0 := fun e => hn (by simp [e])
+    have hxs : (0 : UInt8) ∉ xs := fun e => hn (by simp [e])
+    have := ih hxs
+    simp only [List.cons_append, List.takeWhile_cons, ne_eq, hx, not_false_eq_true, decide_true, if_true, this]
+
+theorem strAt_at (pre n rest : Bytes) (hn : (0 : UInt8) ∉ n) :
+    Spec.strAt (pre ++ (n ++ 0 :: rest)) pre.length = some n := by
+  unfold Spec.strAt
+  have h1 : pre.length < (pre ++ (n ++ 0 :: rest)).length := by simp; omega
+  simp only [h1, if_true, List.drop_left]
+  have h2 : (n ++ 0 :: rest).contains 0 = true := by simp
+  simp only [h2, if_true, takeWhile_nul n rest hn]
+
+theorem strAt_table (pre : Bytes) (ns : List Bytes) (hn : ∀ n ∈ ns, (0 : UInt8) ∉ n) (k off : Nat) (n : Bytes)
+    (ho : (Spec.strtabOffsets pre.length ns)[k]? = some off) (hk : ns[k]? = some n) :
+    Spec.strAt (pre ++ (ns.map (· ++ [0])).flatten) off = some n := by
+  induction ns generalizing pre k with
+  | nil => simp at hk
+  | cons x xs ih =>
+    cases k with
+    | zero =>
+      simp only [Spec.strtabOffsets, List.getElem?_cons_zero, Option.some.injEq] at ho hk
+      subst ho; subst hk
+      simp only [List.map_cons, List.flatten_cons, List.append_assoc, List.singleton_append]
+      exact strAt_at pre x _ (hn x (by simp))
+    | succ j =>
+      simp only [Spec.strtabOffsets, List.getElem?_cons_succ] at ho hk
+      have := ih (pre ++ (x ++ [0])) (fun n hn' => hn n (by simp [hn'])) j
+        (by simpa [Nat.add_assoc] using ho) hk
+      simpa using this
+
+
 end SymTab
 end ElfioVerif
